@@ -420,7 +420,7 @@ type Obs struct {
 
 func (w *RelayWorld) Observe() Obs {
 	var o Obs
-	for _, p := range w.S.Emitted() {
+	for _, p := range w.S.EmittedAll() {
 		if p.Proto == "dial" {
 			o.Dials = append(o.Dials, p.To)
 		} else {
